@@ -260,7 +260,7 @@ def correspondence(ctx, model_ok=True):
                 which[0], which[1], printed[k:k + 1], c[0], list(c[3])[:1] if len(c) > 3 else ""),
                 "program": bsrc, "modules": bmods, "expected": bexp, "signature": "builtin failure not caught: " + str(which[0])[:40], "failing_input": True})
     # (c) reference interpreter
-    sd = specdiff.diff(ctx, [(n, s, m) for n, s, m, _ in gen], "C08", broken) if model_ok else {"failures": [], "compared": 0}
+    sd = specdiff.diff(ctx, [(n, s, m) for n, s, m, _ in gen] + [("scenario:" + sc[0], sc[1], {}) for sc in SCENARIOS], "C08", broken) if model_ok else {"failures": [], "compared": 0}
     failures += sd["failures"]
     tags = {}
     for _, _, _, tg in gen:
